@@ -56,6 +56,9 @@ class Worker:
     def import_psutil(self):
         if self.psutil is None:
             bk = self.engine.make_kernel(self.boot, None)
+            # files that cannot be read *while psutil is imported* (e.g.
+            # /proc/stat: psutil then has no import-time CPU sample)
+            bk.deny = dict(self.boot.get("import_deny") or {})
             self.boot_kernel = bk
             self.psutil = self.engine.import_psutil(self.scratch, bk,
                                                     self.boot)
